@@ -3,7 +3,7 @@
 One harness per (operation, capacity, storage length L, free-stack length F): container lengths must be concrete for CBMC."""
 import os, re, sys
 
-ROOT = os.path.dirname(os.path.abspath(__file__))
+ROOT = os.path.join(os.path.dirname(os.path.abspath(__file__)), "..", "..", "weave")
 LIST = os.path.join(ROOT, "append/dnp3/src/outstation/database/details/event/list.rs/c03_list.rs")
 BUF = os.path.join(ROOT, "append/dnp3/src/outstation/database/details/event/buffer.rs/c03_buffer.rs")
 MARK = "//@@INSTANCES@@"
